@@ -13,7 +13,7 @@ from props import engine_script as es
 
 LEVEL = "proof"
 FILES = ["Engine/Engine.v", "Engine/Script.v", "Engine/EngineProofs.v", "Engine/ScriptProofs.v",
-         "Base/PyLib.v", "Gen/EventGen.v", "C01/GenTie.v", "C01/HeapTie.v", "C01/Props.v"]
+         "Base/PyLib.v", "Gen/EventGen.v", "C01/GenTie.v", "C01/HeapTie.v", "Gen/TemporalGen.v", "C01/TimeTie.v", "C01/Props.v"]
 
 
 def gen(rng):
@@ -128,17 +128,21 @@ TRUSTED = [
     "harness/props/engine_script.py: script generator, real-Entity interpreter, pop instrumentation, encoder",
     "translator harness/translate/py2coq.py + declared types (py2coq_targets.py EventGen): Event.__lt__ is regenerated from core/event.py on every run and proved equal to the model's heap order; "
     "EventHeap._push_single/pop/peek/has_events/has_primary_events/size/set_current_time are regenerated from core/event_heap.py (tracing and debug "
-    "logging off, heapq rendered as a list sorted by Event.__lt__) and proved to be the heap bookkeeping of the engine model (C01/HeapTie.v)",
+    "logging off, heapq rendered as a list sorted by Event.__lt__) and proved to be the heap bookkeeping of the engine model (C01/HeapTie.v); "
+    "Instant / Duration arithmetic and comparisons (finite instants; Duration, Instant and whole-second operands; isinstance dispatch decided by the "
+    "declared operand class) and Clock are regenerated from core/temporal.py and core/clock.py and proved to be integer arithmetic on nanoseconds (C01/TimeTie.v); "
+    "the float-seconds branches (int(x * 1e9)) and Instant.Infinity are NOT translated",
 ]
 
 
 def run(ctx):
     from props import pygen
-    ok, info = pygen.regenerate("EventGen")      # Event.__lt__ translated from $HS_REPO by py2coq
-    ctx.coverage["regenerated"] = info
+    ok, info = pygen.regenerate("EventGen")      # Event.__lt__ and EventHeap translated from $HS_REPO by py2coq
+    ok2, info2 = pygen.regenerate("TemporalGen")  # Instant / Duration / Clock
+    ctx.coverage["regenerated"] = [info, info2]
     ctx.prove(FILES, allowed_axioms=(), trusted_base=TRUSTED)
-    if not ok and ctx.pending_obligation_violation:
-        ctx.pending_obligation_violation["translator"] = info.get("error")
+    if not (ok and ok2) and ctx.pending_obligation_violation:
+        ctx.pending_obligation_violation["translator"] = info.get("error") or info2.get("error")
     stats = [run_family(ctx, FAM, ctx.n(600, 12000))]
     merge_stats(ctx, stats, "random scripts: 1-5 entities, <=12 pre-run events over <=4 timestamps (ties), immediate and generator handlers, futures, cancellations, daemon events, crashed targets, end_time none/tie/between; non-trivial = >=3 pops; distinct by JSON")
     ctx.finish_obligations()
